@@ -172,9 +172,7 @@ def snap_node(n):
     nm, pos = n.name, n.position
     S = snap_node
     if c in LEAFS: return [c, nm, pos]
-    if c == "Symbol":
-        from drxtract.lingosrc.ast.constant_val import KNOWN_SYMBOLS
-        return [c, nm, pos, bool(n.use_hash and nm not in KNOWN_SYMBOLS)]
+    if c == "Symbol": return [c, nm, pos, n.use_hash]
     if c == "UnaryOperation": return [c, nm, pos, S(n.operand)]
     if c == "BinaryOperation": return [c, nm, pos, S(n.left), S(n.right)]
     if c == "SpAssignOperation": return [c, nm, pos, S(n.left), S(n.right), n.mode]
@@ -187,13 +185,13 @@ def snap_node(n):
     if c == "LoadListOperation": return [c, nm, pos, [S(x) for x in n.operands]]
     if c in ("ToListOperation", "ToDictionaryOperation"): return [c, nm, pos, S(n.operand)]
     if c == "Statement": return [c, nm, pos, S(n.code)]
-    if c == "CallFunction": return [c, nm, pos, S(n.parameters), n.use_parenthesis, n.in_tell_operation, n.with_result]
+    if c == "CallFunction": return [c, nm, pos, S(n.parameters), n.use_parenthesis, n.in_tell_operation, n.with_result, S(n.receiver)]
     if c == "CallMethod": return [c, nm, pos, S(n.object), S(n.parameters)]
-    if c == "RepeatOperation": return [c, nm, pos, n.end_position, S(n.condition), [S(x) for x in n.statements_list], n.type, S(n.start), n.varname, n.sign]
+    if c == "RepeatOperation": return [c, nm, pos, n.end_position, S(n.condition), [S(x) for x in n.statements_list], n.type, S(n.start), n.varname, n.sign, S(n.variable)]
     if c == "IfThenOperation": return [c, nm, pos, S(n.condition), [S(x) for x in n.if_statements_list], [S(x) for x in n.else_statements_list]]
     if c == "JumpOperation": return [c, nm, pos, n.address]
     if c == "JzOperation": return [c, nm, pos, S(n.condition), n.address]
-    if c == "WindowTellOperation": return [c, nm, pos, S(n.operand), [S(x) for x in n.statements]]
+    if c == "WindowTellOperation": return [c, nm, pos, S(n.operand), [S(x) for x in n.statements], n.closed]
     raise ValueError("unknown node class " + c)
 
 
